@@ -146,6 +146,8 @@ func runC10(c *fw.Ctx) {
 		{Kind: "Copy", Bucket: "b", Name: "x", DstBucket: "b2", DstName: "x"},
 		{Kind: "Copy", Bucket: "b", Name: "y", DstBucket: "b2", DstName: "only-in-b2"},
 		{Kind: "Copy", Bucket: "b2", Name: "x", DstBucket: "b", DstName: "y"},
+		// a rewrite whose body names fields for the destination (honoured or not: one new version either way)
+		{Kind: "Copy", Bucket: "b", Name: "x", DstBucket: "b", DstName: "y", Meta: gcs.ObjMeta{ContentType: "text/rewritten", Metadata: map[string]string{"rw": "1"}}},
 		P("b2:x", `{"metadata":{"in":"b2"}}`),
 		P("x", `{"metadata":{"a":"1"}}`),
 		P("x", `{"contentType":"text/patched"}`),
@@ -189,6 +191,7 @@ func runC10(c *fw.Ctx) {
 		{Kind: "Compose", Bucket: "b", Name: "x", Srcs: []GSrc{{Name: "x"}, {Name: "x"}}, Meta: gcs.ObjMeta{}},
 		{Kind: "Copy", Bucket: "b", Name: "x", DstBucket: "b", DstName: "y"},
 		{Kind: "Copy", Bucket: "b", Name: "y", DstBucket: "b", DstName: "x"},
+		{Kind: "Copy", Bucket: "b", Name: "x", DstBucket: "b", DstName: "y", Meta: gcs.ObjMeta{CacheControl: "no-store"}},
 		P("x", `{"metadata":{"e":"","k":""}}`),
 		P("x", `{"contentType":"","cacheControl":""}`),
 		P("x", `{"contentType":"text/patched","metadata":{"p":"1"}}`),
